@@ -156,7 +156,8 @@ class C18(Check):
                 ips = list(IPS6LL)
         v6tuple = v6 and k.random() < 0.5  # asyncio hands (host, port, flowinfo, scope_id) to datagram_received for IPv6 sockets
         knobs = {"peers": npeers, "uuid_seed": k.getrandbits(32), "shared_addr": k.random() < 0.25,
-                 "app_sets_out": k.random() < 0.5, "snmp_patches": k.random() < 0.3}
+                 "app_sets_out": k.random() < 0.5, "snmp_patches": k.random() < 0.3,
+                 "cb_kind": k.choice(["function", "function", "bound_method", "bound_method", "partial", "callable_object"])}
         rates = {}
         if arm == "faults" and f.random() > 0.1:
             for x in ("dup", "reorder", "drop", "truncate", "garbage", "peer_reset", "peer_rebind", "snmp_fail", "handler_restart", "callback_raises"):
@@ -318,6 +319,8 @@ class C18(Check):
         for kk in ("snmp_patches", "app_sets_out"):
             if case["knobs"].get(kk):
                 yield dict(case, knobs=dict(case["knobs"], **{kk: False}))
+        if case["knobs"].get("cb_kind", "function") != "function":
+            yield dict(case, knobs=dict(case["knobs"], cb_kind="function"))
 
     # ------------------------------------------------------------------ execution
 
@@ -357,7 +360,28 @@ class C18(Check):
                 res.fault("callback_raises")
                 raise RuntimeError("simulated failure inside the application's completion callback")
 
-        rdac = RDACDatagramProtocol(st, callback=completed)
+        def as_callback():
+            """the application's completion callback in the form this run's application uses (knob): a plain function, a bound method of a
+            listener object nobody else refers to, a functools.partial, or a callable object"""
+            kind = case["knobs"].get("cb_kind", "function")
+            if kind == "function":
+                return completed
+
+            class Listener:
+                def on_done(self, u, *a):
+                    return completed(u)
+
+                __call__ = on_done
+
+            if kind == "bound_method":
+                return Listener().on_done
+            if kind == "partial":
+                import functools
+
+                return functools.partial(Listener.on_done, Listener())
+            return Listener()
+
+        rdac = RDACDatagramProtocol(st, callback=as_callback())
         rdac.connection_made(SimDatagramTransport("RDAC", lambda o, d, a: out.append((o, d, a))))
         reported = {}  # ip -> completion reports since the RDAC handler was (re)created
         registered = set()  # model: addresses that completed registration
@@ -379,7 +403,7 @@ class C18(Check):
             if op["kind"] == "handler_restart":
                 # the handler object is discarded and re-created on the same storage (volatile state lost; the storage survives)
                 if op["dst"] == "RDAC":
-                    rdac = RDACDatagramProtocol(st, callback=completed)
+                    rdac = RDACDatagramProtocol(st, callback=as_callback())
                     rdac.connection_made(SimDatagramTransport("RDAC", lambda o, d, a: out.append((o, d, a))))
                     step = {}
                     reported = {}
